@@ -48,12 +48,18 @@ struct World {
     /// streams may run out of cooperative budget inside a poll of the queue: from then on every
     /// stream poll of that call wakes its caller and returns Pending (what a tokio transport does
     /// for a future driven by block_on)
+    /// keys the queue has reported as closed (take_closed), in order
+    closed_reported: Vec<u8>,
     coop_on: bool,
     exhausted: bool,
     refusals: u32,
     spun: bool,
 }
 thread_local! { static W: RefCell<Option<World>> = const { RefCell::new(None) }; }
+thread_local! {
+    /// set by the C16 stratum: peers close often (the judged clause there is the closed report)
+    pub static CLOSE_HEAVY: std::cell::Cell<bool> = const { std::cell::Cell::new(false) };
+}
 fn w<R>(f: impl FnOnce(&mut World) -> R) -> R {
     W.with(|x| f(x.borrow_mut().as_mut().expect("l1 world")))
 }
@@ -191,7 +197,7 @@ fn foreign(in_window: bool) -> Act {
             7 => {
                 let p = &mut w.peers[id];
                 // closes are rare: most runs keep at least two live peers for the fairness phase
-                if p.inserted && !p.closed && burst == 1 && id % 2 == 1 {
+                if p.inserted && !p.closed && (CLOSE_HEAVY.with(|c| c.get()) || burst == 1 && id % 2 == 1) {
                     p.closed = true;
                     if let Some(wk) = p.armed.take() {
                         return Act::Wake(wk);
@@ -226,7 +232,7 @@ pub fn run(ctx: &mut Ctx) {
     let do_remove = ctx.plan(4) == 0;
     let coop_on = ctx.plan(3) == 1;
     W.with(|x| {
-        *x.borrow_mut() = Some(World { peers: (0..n).map(|_| Peer::default()).collect(), faults_on: true, allow_spurious, extra_tokens: 0, in_window_wakes: 0, in_window_inserts: 0, in_poll: false, deliveries: vec![], pending_inserts: vec![], coop_on, exhausted: false, refusals: 0, spun: false })
+        *x.borrow_mut() = Some(World { peers: (0..n).map(|_| Peer::default()).collect(), faults_on: true, allow_spurious, extra_tokens: 0, in_window_wakes: 0, in_window_inserts: 0, in_poll: false, deliveries: vec![], pending_inserts: vec![], closed_reported: vec![], coop_on, exhausted: false, refusals: 0, spun: false })
     });
     let mut probe: FairQueueProbe<Scripted, u8> = FairQueueProbe::new(true);
     HANDLE.with(|h| *h.borrow_mut() = Some(probe.handle()));
@@ -256,6 +262,10 @@ pub fn run(ctx: &mut Ctx) {
             w.exhausted = false;
             w.refusals = 0;
         });
+        if r.is_ok() {
+            let closed = probe.take_closed();
+            w(|w| w.closed_reported.extend(closed));
+        }
         let r = match r {
             Ok(r) => r,
             Err(p) => {
@@ -415,6 +425,15 @@ pub fn run(ctx: &mut Ctx) {
             }
             if p.inserted && !p.removed && !p.queue.is_empty() {
                 violations.push(("lost_wakeup", format!("receiver is parked and has not been woken, yet peer {i} has {} undelivered items (its waker armed: {})", p.queue.len(), p.armed.is_some())));
+            }
+            // every stream whose end the queue has seen is reported as closed, once: that report is
+            // what makes a socket release the peer
+            let reports = w.closed_reported.iter().filter(|k| **k as usize == i).count();
+            if p.ended && reports == 0 {
+                violations.push(("ended_stream_not_reported_closed", format!("peer {i}'s stream ended (the queue polled it to None) but the queue never reported it as closed: a socket would keep the dead connection for ever")));
+            }
+            if reports > 1 || (reports == 1 && !p.ended) {
+                violations.push(("closed_report_wrong", format!("peer {i}: reported as closed {reports} time(s), stream ended: {}", p.ended)));
             }
             if p.removed && p.delivered_after_remove > 0 {
                 violations.push(("delivered_after_remove", format!("peer {i} was removed between polls but {} of its items were delivered afterwards", p.delivered_after_remove)));
